@@ -16,7 +16,7 @@ from mc import core, httpharness as hh
 PROPERTY = 'C13'
 LEVEL = 'model_checking'
 RULE = ('message grammar: method {GET, POST, HEAD} x target {/, /p?x=1&y=2} x version {1.0, 1.1} x header sets {Host; + folded '
-        'continuation line; + Connection keep-alive / close} x body {none, Content-Length 0, Content-Length 5, chunked: 1 chunk, 2 chunks, '
+        'continuation line; + Connection keep-alive / close} x body {none, Content-Length 0, Content-Length 5, chunked: 1 chunk (also announced as Chunked, with a capital), 2 chunks, '
         'chunk extension, trailer}; alone or as two keep-alive requests (second after the first response); client side: status '
         '{200, 204, 304, 404} x framing {Content-Length, chunked, until-close} x 1-2 responses; each message x {every single cut, '
         'pairs of cuts (quick: around structural boundaries; thorough: all), byte-at-a-time}; oracle = equality with one-piece delivery; '
@@ -45,7 +45,7 @@ def request_messages():
         for target in ('/', '/p?x=1&y=2'):
             for version in ('1.0', '1.1'):
                 for hs in ('host', 'folded', 'keepalive', 'close'):
-                    bodies = ['none'] if method != 'POST' else ['none', 'cl0', 'cl5', 'ch1', 'ch2', 'chext', 'chtrail']
+                    bodies = ['none'] if method != 'POST' else ['none', 'cl0', 'cl5', 'ch1', 'ch2', 'chext', 'chtrail', 'chcase']
                     for body in bodies:
                         if body.startswith('ch') and version == '1.0':
                             continue
@@ -62,11 +62,12 @@ def request_messages():
                             n = 0 if body == 'cl0' else 5
                             parts += [('header', b'Content-Length: %d' % n), ('header-CRLF', b'\r\n')]
                         elif body.startswith('ch'):
-                            parts += [('header', b'Transfer-Encoding: chunked'), ('header-CRLF', b'\r\n')]
+                            # (transfer-coding names are case-insensitive: 'chcase' writes it with a capital)
+                            parts += [('header', b'Transfer-Encoding: Chunked' if body == 'chcase' else b'Transfer-Encoding: chunked'), ('header-CRLF', b'\r\n')]
                         parts += [('end-of-headers-CRLF', b'\r\n')]
                         if body == 'cl5':
                             parts += [('body', b'hello')]
-                        elif body == 'ch1':
+                        elif body in ('ch1', 'chcase'):
                             parts += [('chunk-size', b'5'), ('chunk-size-CRLF', b'\r\n'), ('chunk-data', b'hello'), ('chunk-data-CRLF', b'\r\n'),
                                       ('last-chunk', b'0'), ('last-chunk-CRLF', b'\r\n'), ('final-CRLF', b'\r\n')]
                         elif body == 'ch2':
